@@ -11,7 +11,7 @@ import (
 // decided by finite evaluation of their condition, and the walk ends at a return, a break or the end of the body.
 // An accumulator (the decoded value) can be left abstract: writes to it are recorded as events instead of being
 // applied, and reads of it are unknown unless the rule's hook answers them. Calls are never followed; the only call
-// understood is the byte source (`x.next(i)` / `r.ReadByte()`), which yields the byte under evaluation and a nil error.
+// understood is the byte source (a method call answering (byte, error): `x.next(i)` / `r.ReadByte()`), which yields the byte under evaluation and a nil error.
 
 type iterEvent struct {
 	Kind   string // "|=", "=", "store", "return-or"
@@ -70,9 +70,17 @@ func (it *iterEval) effectOnly(list []ast.Stmt) bool {
 	return ok
 }
 
+// isByteSource: a method call that answers (byte, error) — the decoder's byte source, whatever it is called.
 func (it *iterEval) isByteSource(call *ast.CallExpr) bool {
-	se, ok := call.Fun.(*ast.SelectorExpr)
-	return ok && (se.Sel.Name == "next" || se.Sel.Name == "ReadByte")
+	if _, ok := call.Fun.(*ast.SelectorExpr); !ok {
+		return false
+	}
+	tup, ok := it.info.TypeOf(call).(*types.Tuple)
+	if !ok || tup.Len() != 2 {
+		return false
+	}
+	b, ok := tup.At(0).Type().Underlying().(*types.Basic)
+	return ok && b.Kind() == types.Uint8 && isErrorType(tup.At(1).Type())
 }
 
 // run follows the list; done=false means control fell off its end.
@@ -265,6 +273,8 @@ func (it *iterEval) run(list []ast.Stmt) (out iterOutcome, done bool) {
 				} else {
 					o.RetVal = it.env.eval(r0)
 				}
+			} else if o.Kind == "accept" && len(x.Results) > 0 {
+				o.RetVal = it.env.eval(ast.Unparen(x.Results[0]))
 			}
 			return o, true
 		default:
